@@ -138,6 +138,8 @@ def zr(x):
     if isinstance(x, (float, np.floating)):
         f = Fraction(float(x))
         return zr(f)
+    if isinstance(x, complex) and x.imag == 0:
+        return zr(x.real)  # `orbitals + 0.0j` in get_init_walkers: a cast, not arithmetic
     if z3.is_expr(x):
         return z3.ToReal(x) if z3.is_int(x) else x
     raise TypeError(f"not a real: {type(x)}")
